@@ -77,6 +77,24 @@ def fmt_fields(fmt: str) -> Tuple[str, List[str]]:
     return ("!" if order in "!>" else order), out
 
 
+def enum_int(v):
+    """An IntEnum member evaluates to its int on the wire."""
+    return v.value if isinstance(v, EnumVal) and isinstance(v.value, int) else v
+
+
+def intify(ev: ConstEval, e):
+    """Copy of e with references to integer enum members replaced by their values."""
+    import copy as _copy
+
+    class T(ast.NodeTransformer):
+        def visit_Attribute(self, n):
+            v = ev.ev(n)
+            if isinstance(v, EnumVal) and isinstance(v.value, int):
+                return ast.copy_location(ast.Constant(value=v.value), n)
+            return self.generic_visit(n)
+    return T().visit(_copy.deepcopy(e))
+
+
 class SocksParse:
     """Partial evaluation of _parse_socks_datagram on an abstract datagram made of the emitted fields."""
 
@@ -151,12 +169,12 @@ class SocksParse:
                     return Sym(f"inet_ntoa({v!r})")
                 raise Mismatch(f"parser decodes an IPv4 address from {buf.segs if isinstance(buf, Bytes) else buf!r}, "
                                f"the emitter packed a different field there")
-        return self.ev.ev(e, self.consts(env))
+        return enum_int(self.ev.ev(intify(self.ev, e), self.consts(env)))
 
     def run(self, stmts, env):
         for s in stmts:
             if isinstance(s, ast.If):
-                t = self.ev.ev(s.test, self.consts(env))
+                t = self.ev.ev(intify(self.ev, s.test), self.consts(env))
                 if isinstance(t, (Sym, CallVal)):
                     raise AnalysisError(f"SOCKS parser: undecidable test `{norm(s.test)}` on the emitted header")
                 r = self.run(s.body if t else s.orelse, env)
@@ -265,7 +283,7 @@ def emitted_header(ctx) -> Tuple[FuncInfo, List[Seg], ast.AST]:
         ctx.ob("C06.R1", f"emit: {norm(t.func)} packs one value per field of {fmt!r}", len(fields) == len(args),
                ctx.w(ser, t), f"{len(args)} values for {len(fields)} fields")
         for c, a in zip(fields, args):
-            segs.append(Seg(order, c, ev.ev(a)))
+            segs.append(Seg(order, c, enum_int(ev.ev(a))))
     return ser, segs, rets[0]
 
 
@@ -1068,6 +1086,25 @@ def r4(ctx):
             extra.append(("" if pol else "not ") + norm(e))
         ctx.ob("C06.R4", f"{key} happens on the whole no-addon path", not extra, ctx.w(fn, ic),
                f"forwarding additionally depends on {extra}: some valid datagrams are not delivered")
+    # failures of side work must not lose the datagram: a try in front of the forward whose purpose is to
+    # contain such a failure keeps a catch-all handler that does not re-raise
+    from ..core import handler_catches_all, handler_reraises
+    ntry = 0
+    for t in [x for x in walk(hp.node) if isinstance(x, ast.Try) and x.handlers]:
+        inside = {id(x) for x in ast.walk(t)}
+        if any(id(c) in inside for c, _, _, _ in sites):
+            continue      # the forward itself is in there: not side work
+        tn = [n_ for st_ in t.body for n_ in cfg.nodes_for(st_)] or cfg.nodes_for(t)
+        if not any(n_ in cfg.reachable(tn) for n_ in site_nodes):
+            continue      # after the forward
+        ntry += 1
+        contained = any(handler_catches_all(h) and handler_reraises(h) != "always" for h in t.handlers)
+        what = norm(t.body[0]) if t.body else "?"
+        ctx.ob("C06.R4", f"handle_proxied_packet: failure of `{what}` cannot stop the datagram from being forwarded",
+               contained, ctx.w(hp, t),
+               f"the handlers {[norm(h.type) if h.type is not None else 'bare' for h in t.handlers]} let other "
+               f"exceptions escape handle_proxied_packet before the forward: the datagram is lost")
+    ctx.stats["C06.R4.guarded side work"] = ntry
     # ownership of the raw transport
     base = repo.fn("UDPProxyProtocol.handle_proxied_packet", SOCKS)
     allowed = {"Circuit.send_datagram", "UDPProxyProtocol.handle_proxied_packet"}
